@@ -443,6 +443,11 @@ def gen_check(rng, kind, w, cls, dtype, step, base_ok=True):
     raise KeyError(kind)
 
 
+RANK = {"eq": 0, "isin": 0, "in_range": 1, "c_strat": 1, "str_matches": 1,
+        "str_startswith": 1, "str_endswith": 1, "str_contains": 2, "str_length": 2,
+        "gt": 3, "ge": 3, "lt": 3, "le": 3, "ne": 4, "notin": 4}
+
+
 def chain_support(chain, cands):
     n = 0
     for v in cands:
@@ -479,6 +484,10 @@ def gen_field(rng, dtype=None, name=None, n_checks=None, p_custom=0.18,
             if c is not None and holds(c, w):
                 chain.append(c)
                 break
+    if rng.random() < 0.55:
+        # the documented advice: most restrictive check first (otherwise the
+        # chain is still valid, but hypothesis rarely finds an example)
+        chain.sort(key=lambda c: RANK.get(c["k"], 5))
     cands = neighbours(rng, w, cls, dtype, step)
     for c in chain:      # isin lists contribute candidates as well
         if c["k"] == "isin":
@@ -612,8 +621,12 @@ KINDS = ["series", "column", "index", "multiindex", "frame"]
 SIZES = [None, 0, 1, 2, 3, 4, 5]
 
 
-def _size_for(rng, fields):
+def _size_for(rng, fields, zero_ok=True):
     size = rng.choice(SIZES)
+    if size == 0 and not zero_ok and rng.random() < 0.8:
+        # SeriesSchema/Column strategies filter out empty series: size=0 always
+        # ends in Unsatisfiable (not decided); keep only a few of those
+        size = rng.choice([1, 2, 3])
     cap = min([f["support"] for f in fields if f["unique"]] or [99])
     if size is None:
         # size=None lets hypothesis choose the length: only sound for unique
@@ -662,11 +675,11 @@ def gen_case(rng, kind=None, family=None):
         case["index"] = None
         if rng.random() < 0.2:
             case["index"] = gen_index_spec(rng)
-        case["size"] = _size_for(rng, [f] + _ix_fields(case["index"]))
+        case["size"] = _size_for(rng, [f] + _ix_fields(case["index"]), zero_ok=False)
     elif kind == "column":
         f = gen_field(rng, name=rng.choice(["c", "col 1", "a.b"]))
         case["fields"] = [f]
-        case["size"] = _size_for(rng, [f])
+        case["size"] = _size_for(rng, [f], zero_ok=False)
     elif kind == "index":
         f = gen_field(rng, name=rng.choice([None, "ix"]))
         case["fields"] = [f]
@@ -679,6 +692,51 @@ def gen_case(rng, kind=None, family=None):
         case["size"] = _size_for(rng, fs)
     else:
         gen_frame(rng, case)
+    if case["mode"] == "example" and any(
+            c["k"] in FALLBACK_ONLY for f in case["fields"] + _ix_fields(case.get("index"))
+            for c in f["checks"]) or any(c["k"] in FALLBACK_ONLY for c in case.get("df_checks") or []):
+        # example() cannot be given a time limit; whole-object rejection
+        # sampling is only driven through strategy()
+        case["mode"] = "strategy"
+    return case
+
+
+FALLBACK_ONLY = {"c_vec", "c_agg", "c_dfvec", "c_dfagg"}
+
+
+def gen_cold_case(rng, j):
+    """simple satisfiable case for the fresh-interpreter family: 1-2 builtin
+    checks per field, no flags, inclusive bounds, plain strings"""
+    kind = KINDS[j % len(KINDS)]
+    case = {"family": "sat", "kind": kind, "mode": "strategy", "n_regex": 1,
+            "size": rng.choice([1, 2, 3])}
+
+    def fld(name):
+        dtype = rng.choice(["int64", "int32", "float64", "str", "datetime64[ns]"])
+        w = None
+        if dtype == "str":
+            w = "".join(rng.choice("abcxyz") for _ in range(rng.randint(1, 4)))
+        if dtype == "datetime64[ns]":
+            w = pd.Timestamp("2001-02-03") + pd.Timedelta(rng.randint(0, 1000), unit="D")
+        f = gen_field(rng, dtype, name=name, n_checks=rng.choice([1, 2]), p_custom=0.0,
+                      allow_flags=False, witness=w)
+        for c in f["checks"]:
+            if c["k"] == "in_range":
+                c["a"]["include_min"] = c["a"]["include_max"] = True
+        f["checks"].sort(key=lambda c: RANK.get(c["k"], 5))
+        f["checks"] = [c for c in f["checks"] if c["k"] != "eq"] or f["checks"][:1]
+        return f
+
+    if kind == "multiindex":
+        case["fields"] = [fld("l0"), fld("l1")]
+    elif kind == "frame":
+        case["fields"] = [fld("c0"), fld("c1")]
+        case.update(index={"multi": False, "fields": [fld("ix")]} if rng.random() < 0.5 else None,
+                    df_checks=[], df_unique=None, df_dtype=None)
+    else:
+        case["fields"] = [fld("c" if kind == "column" else None)]
+        if kind == "series":
+            case["index"] = None
     return case
 
 
@@ -858,9 +916,7 @@ def build(case):
                               for f in fs])
     cols = {}
     for f in fs:
-        cols[f["name"]] = pa.Column(
-            None if case.get("df_dtype") else f["dtype"],
-            regex=f["regex"], **_common(f))
+        cols[f["name"]] = pa.Column(f["dtype"], regex=f["regex"], **_common(f))
     return pa.DataFrameSchema(
         cols, checks=[build_check(c) for c in case.get("df_checks", [])],
         index=build_index(case.get("index")), unique=case.get("df_unique"),
